@@ -125,7 +125,7 @@ func ParseTime(text string) (t time.Time, err error) {
 	return
 }
 
-var headerNewlineToSpace = strings.NewReplacer("\n", " ", "\r", " ")
+var headerNewlineToSpace = strings.NewReplacer("\n", " ", "\r", " ", "\x00", " ")
 
 type writeStringer interface {
 	WriteString(string) (int, error)
